@@ -114,6 +114,24 @@ def r1_fields_restored(ck, rule="C04-R1"):
                        "field `%s` is changed by an application (%s) but no rollback path copies it back from the apply report: "
                        "undo cannot restore it" % (field, ", ".join(writers)), where)
             continue
+        # on every rollback-mode path the restore must happen, and nothing may overwrite the field afterwards
+        for rfn in {r[0].id: r[0] for r in restores}.values():
+            region, normal, sws = rollback_regions(rfn)
+            normal_edges = {sw["edges"]["Normal"] for sw in sws if "Normal" in sw["edges"]}
+            rbbs = {bb for f2, bb, s, g in restores if f2.id == rfn.id}
+            missing = [b for b in cfg.exits(rfn) if b in cfg.reachable(rfn, 0, disabled=normal_edges, blocked=rbbs)]
+            if 0 in rbbs:
+                missing = []
+            ck.require(not missing, rule, "ModifiedFile.%s restored on every rollback path of %s" % (field, rfn.name),
+                       "in rollback mode %s can return without copying `%s` back from the apply report (some path skips the restore): "
+                       "undo leaves whatever the inverse application computed" % (rfn.name, field), rfn.where(),
+                       ok_detail="every rollback-mode path to the return crosses the restore")
+            after = set()
+            for rb in rbbs:
+                after |= cfg.reachable_from_after(rfn, rb, disabled=normal_edges)
+            late = [(f, b2, kind, s2) for (f, b2, kind, s2) in field_writes(rfn, MODIFIED_FILE) if f == field and b2 in after and b2 not in rbbs]
+            ck.require(not late, rule, "ModifiedFile.%s not overwritten after its restore in %s" % (field, rfn.name),
+                       "`%s` is written again after it was restored from the report: %s" % (field, [rfn.where(s2) for _, _, _, s2 in late]), rfn.where())
         ok_any = False
         msgs = []
         for fn, bb, s, g in restores:
@@ -344,6 +362,35 @@ def r3_lifo(ck, rule="C04-R3"):
     ck.floor(rule, "rollback loops", n, 3)
 
 
+def r3b_pop_after_rollback(ck, rule="C04-R3"):
+    """An applied file patch is only forgotten (popped from the stack) after it was rolled back in the same iteration."""
+    prog, cg = ck.prog, ck.cg
+    ctors, aborting = discover_rollback_api(ck)
+    reach_abort = set()
+    for a in aborting:
+        reach_abort |= cg.reaches(a)
+    n = 0
+    for fid in sorted(reach_abort):
+        fn = prog.fns[fid]
+        if fn.crate != "rapidquilt":
+            continue
+        for wl in pt.while_let_pop_loops(fn):
+            # only stacks of PatchStatus
+            pops = [b for b in wl["pop_bbs"] if "PatchStatus" in (fn.blocks[b]["term"]["argtys"][0] if fn.blocks[b]["term"]["argtys"] else "")]
+            if not pops:
+                continue
+            rb = {s.bb for s in cg.out[fid] if s.term is not None and s.callee in reach_abort and s.bb in wl["body"]}
+            back = {(t, wl["head"]) for t in fn.preds()[wl["head"]] if t in wl["body"]}
+            for pb in pops:
+                n += 1
+                r = cfg.reachable(fn, [wl["head"]], disabled=back, blocked=rb)
+                ck.require(bool(rb) and pb not in r, rule, "pop only after rollback in %s" % fn.id,
+                           "a file patch can be popped from the applied stack without having been rolled back in that iteration: its changes "
+                           "stay in the in-memory files and are saved", fn.where(fn.blocks[pb]["term"]),
+                           ok_detail="every path from the loop head to this pop crosses the rollback call")
+    ck.floor(rule, "pops of applied file patches", n, 3)
+
+
 def r4_replay(ck, rule="C04-R4"):
     prog, cg = ck.prog, ck.cg
     tah = ck.anchor("libpatch::patch::try_apply_hunk")
@@ -410,4 +457,5 @@ def run(ck):
     r1_fields_restored(ck)
     r2_single_caller(ck)
     r3_lifo(ck)
+    r3b_pop_after_rollback(ck)
     r4_replay(ck)
